@@ -395,7 +395,7 @@ fn ref_aggregate(a: &AggK, rows: &[&Vec<Value>]) -> Value {
         AggK::Avg(_) => {
             if nn.is_empty() { return Value::Null; }
             match &nn[0] {
-                // the INT average truncates (the sentence is silent; as the code does)
+                // CODE-CHOICE (`code_choice`): the INT average truncates towards zero (the sentence is silent; as the code does)
                 Value::Int(_) => Value::Int(nn.iter().map(|v| if let Value::Int(x) = v { *x } else { 0 }).sum::<i64>() / nn.len() as i64),
                 // the INTERVAL average is the total divided by the count, truncated to the nanosecond
                 Value::Interval(_) => Value::Interval(nn.iter().fold(sqlgrep::model::IntervalType::zero(), |acc, v| if let Value::Interval(x) = v { acc + *x } else { acc }) / nn.len() as i32),
@@ -404,8 +404,8 @@ fn ref_aggregate(a: &AggK, rows: &[&Vec<Value>]) -> Value {
         }
         AggK::Stddev(_, var) => {
             if nn.is_empty() { return Value::Null; }
-            // POPULATION variance (divisor n; the sentence and the README do not say population or sample: the code's
-            // choice), computed here over EXACT rationals — not by the code's one-pass REAL formula: the generated INT values
+            // CODE-CHOICE (`code_choice`): POPULATION variance (divisor n; the sentence and the README do not say population or
+            // sample), computed here over EXACT rationals — not by the code's one-pass REAL formula: the generated INT values
             // are integers and the REAL values multiples of 1/4, so with m = 4·x: Var(x) = (n·Σm² − (Σm)²) / (16·n²), one
             // correctly rounded division. The implementation's REAL may differ from it by rounding (see `cells_match`).
             let ms: Option<Vec<i128>> = nn.iter().map(|v| match v {
@@ -435,6 +435,7 @@ fn ref_aggregate(a: &AggK, rows: &[&Vec<Value>]) -> Value {
         AggK::Max(_) => nn.iter().fold(Value::Null, |cur, v| if cur == Value::Null || cmp_val(v, &cur) == Ordering::Greater { v.clone() } else { cur }),
         AggK::Percentile(_, p) => {
             if nn.is_empty() { return Value::Null; }
+            // CODE-CHOICE (`code_choice`): nearest rank, index min(⌊p·n⌋, n − 1) of the ascending values (the median of 1, 2 is 2)
             let mut sorted = nn.clone();
             sorted.sort_by(cmp_val);
             let p: f64 = p.parse().unwrap();
@@ -478,6 +479,33 @@ fn cells_match(a: &Value, b: &Value) -> bool {
 }
 fn tables_match(a: &[Vec<Value>], b: &[Vec<Value>]) -> bool {
     a.len() == b.len() && a.iter().zip(b.iter()).all(|(r, t)| r.len() == t.len() && r.iter().zip(t.iter()).all(|(x, y)| cells_match(x, y)))
+}
+
+/// The CHOICES of the code that the property sentence does not fix and this reference (like the Lean specification)
+/// mirrors: POPULATION variance (divisor n, not n − 1) for STDDEV / VARIANCE, PERCENTILE(p) = the nearest-rank element at
+/// index min(⌊p·n⌋, n − 1) of the ascending values, AVG over INT / INTERVAL = truncating division. The reference keeps
+/// DEMANDING them — a change of one of them is a change of behaviour — but a deviation confined to such cells is reported
+/// under a `code-choice:` class, so that a report says honestly that the sentence itself does not decide it.
+fn code_choice(a: &AggK) -> Option<&'static str> {
+    match a {
+        AggK::Stddev(_, _) => Some("population-variance"),
+        AggK::Percentile(_, _) => Some("nearest-rank-percentile"),
+        AggK::Avg(c) if matches!(col_type(*c), ValueType::Int | ValueType::Interval) => Some("truncating-integer-average"),
+        _ => None,
+    }
+}
+/// `Some(choice)` when the two tables have the same shape and every differing cell belongs to a select-list item that is
+/// one of the code's choices (the first such item names the class)
+fn differs_only_in_code_choices(q: &TypedQuery, got: &[Vec<Value>], want: &[Vec<Value>]) -> Option<&'static str> {
+    if got.len() != want.len() || got.iter().zip(want).any(|(r, t)| r.len() != t.len() || r.len() != q.items.len()) { return None; }
+    let mut found = None;
+    for (r, t) in got.iter().zip(want) {
+        for (i, (x, y)) in r.iter().zip(t).enumerate() {
+            if cells_match(x, y) { continue; }
+            match &q.items[i] { Item::Agg(a, _) => match code_choice(a) { Some(c) => { found.get_or_insert(c); } None => return None }, _ => return None }
+        }
+    }
+    found
 }
 
 struct RefOut {
@@ -545,7 +573,9 @@ fn typed_tag(q: &TypedQuery, outcome: &str, nrows: usize, r: &RefOut) -> String 
     let mut names: Vec<&str> = q.items.iter().map(|it| match it { Item::Key(_) => "key", Item::Agg(a, _) => a.name() }).collect();
     names.sort();
     names.dedup();
-    format!("typed:{}|g{}|h{}|w{}|{}|rows{}|d10{}|d15{}", names.join(","), q.group.len(), q.having.is_some() as u8, q.wher.is_some() as u8, outcome, nrows.min(3), r.d10 as u8, r.d15 as u8)
+    // `code-choice1`: the select list has a cell whose value is a choice of the code the sentence does not fix (see `code_choice`)
+    let cc = q.items.iter().any(|it| matches!(it, Item::Agg(a, _) if code_choice(a).is_some()));
+    format!("typed:{}|g{}|h{}|w{}|{}|rows{}|d10{}|d15{}|code-choice{}", names.join(","), q.group.len(), q.having.is_some() as u8, q.wher.is_some() as u8, outcome, nrows.min(3), r.d10 as u8, r.d15 as u8, cc as u8)
 }
 
 pub fn run(p: &Params) -> Run {
@@ -639,9 +669,11 @@ pub fn run(p: &Params) -> Run {
                     // known finding D10 only if the table is EXACTLY the predicted one: the reference table without the
                     // groups in which no aggregate creates an entry (and no ARRAY_AGG starts with NULL: D15 predicts an
                     // error, so a table is then not what any finding predicts)
-                    let class = if expected.d10 && !expected.d15 && tables_match(rows, &expected.rows_d10) { "D10:group-without-value-entry" } else { "aggregate-table-differs-from-reference" };
+                    let class = if expected.d10 && !expected.d15 && tables_match(rows, &expected.rows_d10) { "D10:group-without-value-entry".to_owned() }
+                        else if let Some(choice) = differs_only_in_code_choices(&q, rows, &expected.rows) { format!("code-choice:{}-cell-differs-from-reference", choice) }
+                        else { "aggregate-table-differs-from-reference".to_owned() };
                     let note = if expected.d15 { " (finding D15 predicts the error `Cannot create array of null type` here)".to_owned() } else if expected.d10 { format!(" (finding D10 predicts {:?})", expected.rows_d10) } else { String::new() };
-                    run.fail(desc.clone(), class, format!("implementation table {:?} but the rows of each group give {:?}{}", rows, expected.rows, note));
+                    run.fail(desc.clone(), &class, format!("implementation table {:?} but the rows of each group give {:?}{}", rows, expected.rows, note));
                 }
                 ("ok", rows.len())
             }
